@@ -34,6 +34,9 @@ CLAIMED = {
     "C12": ("fault_enumeration",
             "Fault enumeration in the deterministic simulator: every request kind (plain, via upstream, CONNECT direct / via HTTP / via HTTPS upstream, MITM-inner) crossed with every fault point the network and the scripted peers can produce (refused / black-holed dial with the timeouts on the fake clock, RST at accept, TLS garbage / close / expired / wrong-name / untrusted certificate, CONNECT rejected with 3xx-5xx, FIN or RST after k bytes of the reply with k ranging over the whole reply, malformed status line / header / chunk, wrong Content-Length, unusual status lines) with healthy exchanges before and after on the same connection, plus a second world of hostile client byte streams on plain/TLS/MITM listeners. A strict client-side parser classifies the outcome; a dead worker process (Go panic in a proxy goroutine) is reported as a crash with its seed.",
             "DESIGN.md 4 C12", "deterministic simulation with enumerated fault points (dial, TLS, CONNECT reply, cut after k bytes) + strict client parser + crash detection by worker death"),
+    "C13": ("exploration",
+            "Conservation checked at quiescent barriers of the deterministic simulator: the workloads of the other worlds (requests, responses, tunnels, access control, routing, upstream faults, hostile clients, stalled peers, shutdown) are re-run with a Prometheus registry; when all scripted clients are done, the network is drained, outstanding origin work has finished on the fake clock and idle upstream connections are closed, listener_cx_total/active, dialer_cx_total/active/errors/retries, http_requests_in_flight and http_requests_total{code,method} must equal the simulator's own ledger (listener hand-outs, open sockets, connection attempts, responses parsed by clients). A library-level sub-world closes a conntrack-wrapped connection from several goroutines at once with a slow underlying Close and checks OnClose-exactly-once and byte counters.",
+            "DESIGN.md 4 C13", "deterministic simulation + conservation invariants at quiescent barriers against the simulator's ledger"),
     "C15": ("exploration",
             "Deterministic simulation with every limit on the fake clock: listener stackings (plain, TLS, PROXY, PROXY+TLS, MITM), per-run idle / read-header / TLS-handshake / PROXY-header limits, 0-16 peers stalled at drawn points (no byte, after k bytes of a PROXY header, TLS ClientHello or request head, between requests, after a MITM'd CONNECT), peers that idle and then send a head slowly but within the limits, and origins slower than every limit. Oracle: closing time equals phase start plus the applicable limit exactly (never earlier, at most 200 ms later), slow origins never cause a close, and a well-behaved client connecting meanwhile is answered with zero simulated time elapsed - which turns 'without waiting for them' into an exact statement.",
             "DESIGN.md 4 C15", "deterministic simulation with simulated clock: exact closing-time oracle + zero-wait probe client"),
